@@ -546,6 +546,21 @@ func checkLoadNormalisation(w *World, r *Report) {
 				saveFn = fn
 			}
 		}
+		// the record literal may sit in a converter helper: the loop over the id index is then in
+		// the save function (or the helper of it) that calls the converter
+		if ro := resolveRoles(w); ro.Save != nil && saveFn != ro.Save {
+			for _, f := range append([]*ssa.Function{ro.Save}, ro.helpersOf(ro.Save)...) {
+				has := false
+				allInstrs(f, func(in ssa.Instruction) {
+					if rg, ok := in.(*ssa.Range); ok && w.AP(rg.X) == "recv.jobsByID" {
+						has = true
+					}
+				})
+				if has {
+					saveFn = f
+				}
+			}
+		}
 		if saveFn != nil {
 			var rng *ssa.Range
 			allInstrs(saveFn, func(in ssa.Instruction) {
